@@ -81,6 +81,7 @@ pub fn run(e: &'static Engine) {
          (format info -> unmask -> read-out -> de-interleave -> segment parse) must give exactly one segment equal to the input. \
          Non-trivial: a symbol was returned and the input is non-empty; distinct by hash of (input, options).",
     );
+    e.extend_rule("related predecessor builds on the thread (incl. a build that panics mid-encoding and one that fails) and builder warm-up (any mode, only changed setters re-sent) on every generated case; payload families UTF-8 text, special tokens, class runs, block look-alikes; enumerated extreme textures; a part with forced modes the input may not fit and a part just beyond a pinned version's capacity (refused on a correct tree; a returned symbol must decode); the row view qr[r] equals data.");
     e.assume("reference decoder (refmodel) is correct; anchored by the qrcode-crate self-test and its own unit tests");
     crate::engine::run_regress(e, &|c, o| replay(e, c, o));
     let per_combo: u32 = e.tier.pick(2, 2);
